@@ -133,3 +133,72 @@ def decorator_rule(repo, chk):
     if first is not None:
         chk.ob('DECOR', first, first.node, '%d functions in scope carry only transparent decorators (%s)' % (len(chk.functions), ', '.join(TRANSPARENT_DECORATORS[:6])),
                n == 0, construct='decorators', robust=True)
+
+
+# ----------------------------------------------------------------------------------------------------------------------
+# DEFS: data definitions at module and class level
+# ----------------------------------------------------------------------------------------------------------------------
+_MODDEFS = None
+
+
+def module_definitions(mod):
+    """{name or Class.name: canonical value} of the data definitions a module makes outside its functions."""
+    import ast
+    import hashlib
+    from ..core import canon, dotted
+    out = {}
+
+    def add(prefix, s):
+        if isinstance(s, ast.Assign) and len(s.targets) == 1 and isinstance(s.targets[0], ast.Name):
+            name, v = s.targets[0].id, s.value
+        elif isinstance(s, ast.AnnAssign) and isinstance(s.target, ast.Name) and s.value is not None:
+            name, v = s.target.id, s.value
+        else:
+            return
+        if isinstance(v, ast.Call) and (dotted(v.func) or '').startswith(('logging.', 'typing.')):
+            return
+        if isinstance(v, ast.Subscript) and (dotted(v.value) or '') in ('Union', 'Optional', 'List', 'Dict', 'Tuple', 'Set'):
+            return
+        out[prefix + name] = hashlib.sha1(repr(canon(v)).encode()).hexdigest()[:12]
+    for s in mod.tree.body:
+        add('', s)
+        if isinstance(s, ast.ClassDef) and not s.name.endswith('Test'):
+            for c in s.body:
+                add(s.name + '.', c)
+    return out
+
+
+def reviewed_definitions():
+    global _MODDEFS
+    if _MODDEFS is None:
+        import json
+        p = os.path.join(os.path.dirname(os.path.dirname(__file__)), 'refs', 'moddefs.json')
+        _MODDEFS = json.load(open(p)) if os.path.exists(p) else {}
+    return _MODDEFS
+
+
+def definitions_rule(repo, chk):
+    """DEFS: named tuples, enumerations, tables and constants defined at module or class level in the modules the property's
+    functions live in have their reviewed value (a swapped field order of a namedtuple, a changed enum value or sentinel
+    changes every function that uses it without touching any of them)."""
+    reviewed = reviewed_definitions()
+    mods = sorted({q.split(':')[0] for q in set(chk.functions) | set(chk.cone_functions)})
+    n = bad = 0
+    first = None
+    for mn in mods:
+        m = repo.modules.get(mn)
+        if m is None or mn not in reviewed:
+            continue
+        now = module_definitions(m)
+        some = next((repo.funcs[q] for q in sorted(chk.functions) if q.split(':')[0] == mn and q in repo.funcs), None) \
+            or next((fi for q, fi in sorted(repo.funcs.items()) if q.split(':')[0] == mn), None)
+        first = first or some
+        for name, h in sorted(reviewed[mn].items()):
+            n += 1
+            if name in now and now[name] != h:
+                bad += 1
+                chk.ob('DEFS', some, None, 'module / class level definitions have their reviewed value', False,
+                       '%s.%s is defined differently from the reviewed tree' % (mn, name), construct='definition %s.%s' % (mn.split('.')[-1], name), robust=True)
+    if first is not None:
+        chk.ob('DEFS', first, first.node, '%d data definitions at module / class level in %d modules have their reviewed value' % (n, len(mods)),
+               bad == 0, construct='definitions', robust=True)
